@@ -6,12 +6,12 @@ Import ListNotations.
 Local Open Scope Z_scope.
 
 Inductive case1 :=
-| CNeg (sA cA sE cE : lvl) (sm cm : list meth) (sc cc : list ciph)
+| CNeg (sA cA sE cE sI cI : lvl) (sm cm : list meth) (sc cc : list ciph)
        (err auth enc enact : bool) (m : meth) (k : option ciph)
-| CNegT (sm cm : list meth) (sc cc : list ciph) (m : meth) (k : option ciph) (codes : bytes)
+| CNegT (sI cI : lvl) (sm cm : list meth) (sc cc : list ciph) (m : meth) (k : option ciph) (codes : bytes)
 | CBit (b : Z) (m : option meth)
 | CMask (ms : list meth) (b : Z)
-| CHs (sA cA sE cE sI cI : lvl) (sm cm : list meth) (sc cc : list ciph)
+| CHs (tok tw : bool) (sA cA sE cE sI cI : lvl) (sm cm : list meth) (sc cc : list ciph)
       (out : N) (cerr serr cauth sauth cenc senc : bool) (cmeth smeth : meth) (real : bool)
       (rounds : list (Z * Z)).
 
@@ -26,42 +26,47 @@ Fixpoint rounds_eqb (a b : list (Z * Z)) : bool :=
   | _, _ => false
   end.
 
-(* which sub-protocols work in the harness runs: CLAIMTOBE, FS and (with token material) TOKEN/IDTOKENS do; PASSWORD is a stub *)
-Definition run_aok (m : meth) : bool := match m with mCTB | mFS | mTOK | mIDT => true | _ => false end.
+(* which sub-protocols work in the harness runs: CLAIMTOBE and FS do; TOKEN/IDTOKENS do iff
+   [tw] (the client's token verifies under a key the server holds); PASSWORD is a stub; SSL,
+   SCITOKENS, KERBEROS have no credentials in the harness world *)
+Definition run_aok (tw : bool) (m : meth) : bool :=
+  match m with mCTB | mFS => true | mTOK | mIDT => tw | _ => false end.
 
 Definition lvl_of (n : N) : lvl :=
   match n with 0%N => Rq | 1%N => Pf | 2%N => Op | 3%N => Nv | _ => Ot end.
 Definition b2N (b : bool) (w : N) : N := if b then w else 0%N.
-Definition neg_code (sm cm : list meth) (sc cc : list ciph) (li : N) : N :=
+Definition neg_code (sI cI : lvl) (sm cm : list meth) (sc cc : list ciph) (li : N) : N :=
   let cE := lvl_of (li mod 5)%N in
   let sE := lvl_of ((li / 5) mod 5)%N in
   let cA := lvl_of ((li / 25) mod 5)%N in
   let sA := lvl_of (li / 125)%N in
-  let r := negotiate sA cA sE cE sm cm sc cc in
-  (b2N (match n_err r with Some _ => true | None => false end) 1 + b2N (n_auth r) 2
-   + b2N (n_enc r) 4 + b2N (n_enact r) 8)%N.
+  let r := negotiate_i sA cA sE cE sI cI sm cm sc cc in
+  (b2N (match ni_err r with Some _ => true | None => false end) 1 + b2N (ni_auth r) 2
+   + b2N (ni_enc r) 4 + b2N (ni_enact r) 8)%N.
 (* codes: one byte per combination of the five level classes, index in base 5 *)
-Fixpoint neg_rows (sm cm : list meth) (sc cc : list ciph) (li : N) (codes : bytes) : bool :=
+Fixpoint neg_rows (sI cI : lvl) (sm cm : list meth) (sc cc : list ciph) (li : N) (codes : bytes) : bool :=
   match codes with
   | [] => N.eqb li 625
-  | b :: r => N.eqb (neg_code sm cm sc cc li) (b2n b) && neg_rows sm cm sc cc (li + 1)%N r
+  | b :: r => N.eqb (neg_code sI cI sm cm sc cc li) (b2n b) && neg_rows sI cI sm cm sc cc (li + 1)%N r
   end.
 
 Definition check1 (c : case1) : bool :=
   match c with
-  | CNegT sm cm sc cc m k codes =>
-      neg_rows sm cm sc cc 0%N codes
-      && meth_eqb (n_meth (negotiate Op Op Op Op sm cm sc cc)) m
-      && optc_eqb (n_ciph (negotiate Op Op Op Op sm cm sc cc)) k
-  | CNeg sA cA sE cE sm cm sc cc err auth enc enact m k =>
-      let r := negotiate sA cA sE cE sm cm sc cc in
-      Bool.eqb (match n_err r with Some _ => true | None => false end) err
-      && Bool.eqb (n_auth r) auth && Bool.eqb (n_enc r) enc && Bool.eqb (n_enact r) enact
-      && meth_eqb (n_meth r) m && optc_eqb (n_ciph r) k
+  | CNegT sI cI sm cm sc cc m k codes =>
+      neg_rows sI cI sm cm sc cc 0%N codes
+      && meth_eqb (ni_meth (negotiate_i Op Op Op Op Op Op sm cm sc cc)) m
+      && optc_eqb (ni_ciph (negotiate_i Op Op Op Op Op Op sm cm sc cc)) k
+  | CNeg sA cA sE cE sI cI sm cm sc cc err auth enc enact m k =>
+      let r := negotiate_i sA cA sE cE sI cI sm cm sc cc in
+      Bool.eqb (match ni_err r with Some _ => true | None => false end) err
+      && Bool.eqb (ni_auth r) auth && Bool.eqb (ni_enc r) enc && Bool.eqb (ni_enact r) enact
+      && meth_eqb (ni_meth r) m && optc_eqb (ni_ciph r) k
   | CBit b m => optm_eqb (of_bit b) m
   | CMask ms b => mask ms =? b
-  | CHs sA cA sE cE sI cI sm cm sc cc out cerr serr cauth sauth cenc senc cmeth smeth real rounds =>
-      match honest run_aok (mkP cA cE cI cm cc 1) (mkP sA sE sI sm sc 2) 7 with
+  | CHs tok tw sA cA sE cE sI cI sm cm sc cc out cerr serr cauth sauth cenc senc cmeth smeth real rounds =>
+      (* out: 0 both succeed / 1 the server's denial ad was on the wire AND the client's error is
+         of the class "rejected by the server" AND the server failed / 2 any other failure *)
+      match honest_i (run_aok tw) tok (mkP cA cE cI cm cc 1) (mkP sA sE sI sm sc 2) 7 with
       | HDenied => N.eqb out 1 && cerr && serr
       | HFail ce se rs => N.eqb out 2 && Bool.eqb ce cerr && Bool.eqb se serr && rounds_eqb rs rounds
       | HOk r =>
